@@ -323,7 +323,14 @@ def seq_of_items(ex, items, sty):
     for it in items:
         if isinstance(it, _YieldFrom):
             v = it.v
-            if is_sym(v) and v.ty.kind == "seq":
+            hooked = None
+            for hk in ex.models.YIELD_FROM_HOOKS:
+                hooked = hk(ex, v, sty)
+                if hooked is not None:
+                    break
+            if hooked is not None:
+                parts.append(hooked)
+            elif is_sym(v) and v.ty.kind == "seq":
                 parts.append(v.t)
             else:
                 for x in ex.models.as_list(ex, v):
@@ -1562,6 +1569,7 @@ class Ex:
                 for u in spec.using(self, fr, n, vals):
                     self.assume_def(u)
             self.assume_inv(spec.inv(self, fr, n, vals), self.ghost.setdefault(("schemas", key), {}))
+            self.ghost[("loop_exit", key)] = vals
             # loop-local temporaries are undefined after the loop
             self.cover(f"{name}:exit")
             if getattr(it, "on_exhaust", None):
@@ -1621,6 +1629,7 @@ class Ex:
             raise PathAbort("loop iteration verified")
         else:
             self.assume(z3.Not(self._z(tv)))
+            self.ghost[("loop_exit", key)] = vals
             self.cover(f"{name}:exit")
             self.exec_block(s.orelse, fr)
 
